@@ -29,6 +29,15 @@ func c32Run(arg string) explore.RunFn {
 		w.Explore(false)
 		o := explore.Outcome{Points: w.X.Points, Divergence: w.X.Divergence(), Steps: w.X.Steps(), StepLog: w.X.StepLog}
 		o.Viol = runtimeViolations(w)
+		o.Viol = append(o.Viol, e.shutdownViolations()...)
+		if e.Closed {
+			o.Counters = map[string]int{"close_returned": 0, "close_blocked": 0}
+			if e.CloseReturned {
+				o.Counters["close_returned"] = 1
+			} else {
+				o.Counters["close_blocked"] = 1
+			}
+		}
 		if len(o.Viol) == 0 {
 			o.Viol = append(o.Viol, e.probe()...)
 			o.Viol = append(o.Viol, runtimeViolations(w)...)
@@ -46,6 +55,7 @@ var c32Pairs = []string{
 
 var c32Triples = []string{
 	"pingA+pubB+ackA", "pubB+takeA+hk", "pubB+subA+close", "takeA+connC+close", "pubB+dropA+takeA", "pubA2+pubB+ackA", "discA+takeA+pubB", "hk+sys+pubB",
+	"close+connD", "close+connC+connD", "close+takeAc",
 }
 
 // c32Fault: the sequential write-fault / refused-packet histories of C34 judged only by the
@@ -73,7 +83,9 @@ func init() {
 		c.Rep.Assumption("threads are serialised by the cooperative scheduler (sequentially consistent interleavings only); sync.RWMutex modelled with writer preference as in the Go runtime")
 		c.Rep.Assumption("scheduling points: every Lock/RLock, atomic operation on non-statistics fields, Once, WaitGroup, channel statement, goroutine start, connection Read/Write/Close/Accept")
 		scen := append([]string{}, c32Pairs...)
-		bounds := []explore.Bounds{{Preempt: 0}, {Preempt: 1}, {Preempt: 2}}
+		// the first bound is always run to its budget; bound 1 contains the default schedule, a
+		// separate pass for bound 0 only costs a round of worker start-ups on a loaded machine
+		bounds := []explore.Bounds{{Preempt: 1}, {Preempt: 2}}
 		per := 4 * time.Second
 		if !c.Quick() {
 			scen = append(scen, c32Triples...)
